@@ -613,7 +613,7 @@ class Flow(object):
             self.out_state(blk, st)
             succs = blk["s"]
             tk = blk.get("tk")
-            cond = f.nodes.get(blk.get("tc")) if blk.get("tc") is not None else None
+            cond = branch_cond(f, blk)
             for i, s in enumerate(succs):
                 if s is None:
                     continue
@@ -652,6 +652,33 @@ class Flow(object):
 
     def out_state(self, blk, st):
         pass
+
+
+def branch_cond(f, blk):
+    """the expression that decides the two-way branch at the end of block blk.  For `if (a && (b || c))` clang
+    splits the condition over several blocks; the last one is terminated by the IfStmt itself and reports the
+    WHOLE condition, although only its last evaluated operand is decided there: return that operand."""
+    tc = blk.get("tc")
+    if tc is None:
+        return None
+    cond = f.nodes.get(tc)
+    if cond is None:
+        return None
+    c = strip(cond)
+    if c["k"] == "Binary" and c["op"] in ("&&", "||") and blk.get("t") != c["id"] and blk["e"]:
+        last = f.nodes.get(blk["e"][-1])
+        if last is not None and last["id"] != c["id"]:
+            # must be inside the condition's subtree
+            p = last["id"]
+            inside = False
+            while p is not None:
+                if p == c["id"]:
+                    inside = True
+                    break
+                p = f.parent.get(p)
+            if inside:
+                return last
+    return cond
 
 
 def returns(func):
